@@ -214,6 +214,44 @@ fn literal_cases() -> Vec<Case> {
             }
         }
     }
+    // floats across the whole exponent range (decimal and binary powers, short mantissas), where
+    // the printed form switches between plain and exponent notation and grows to 300+ digits
+    {
+        let mut fl: Vec<f64> = Vec::new();
+        for k in -324i32..=308 {
+            for m in ["1", "2", "5", "9", "1.5", "9.999999999999999"] {
+                if let Ok(x) = format!("{m}e{k}").parse::<f64>() {
+                    if x.is_finite() {
+                        fl.push(x);
+                    }
+                }
+            }
+        }
+        for k in -1074i32..=1023 {
+            fl.push(2f64.powi(k));
+        }
+        for x in [123456789012345680.0, 0.000001, 0.0000001, 1e15 + 0.5, 1e16 + 2.0, 4503599627370497.5, 0.1 + 0.2, 1.0 / 3.0, 2.0 / 3.0, 1e23, 8.41e21, 9.5e-5, 5e-5, 0.00001234] {
+            fl.push(x);
+        }
+        let neg = ks.iter().find(|k| k.label == "Neg");
+        let list2 = ks.iter().find(|k| k.label == "List2");
+        for x in fl {
+            for sign in [1.0, -1.0] {
+                let leaf = RE::Val(RV::float(x * sign));
+                if let Some(text) = leaf.unparse() {
+                    out.push(Case { label: "literal/float-range".into(), text, tree: leaf.clone() });
+                }
+                if sign > 0.0 {
+                    for p in [neg, list2].into_iter().flatten() {
+                        let t = (p.build)((0..p.arity).map(|_| leaf.clone()).collect());
+                        if let Some(text) = t.unparse() {
+                            out.push(Case { label: format!("literal/float-range/under-{}", p.label), text, tree: t });
+                        }
+                    }
+                }
+            }
+        }
+    }
     // literals that only exist as text
     for (l, text, t) in [
         ("float-overflow", "f1e999", RE::Val(RV::float(f64::INFINITY))),
